@@ -69,28 +69,29 @@ type c17Read struct {
 }
 
 type c17Data struct {
-	LogID      string            `json:"log_id"`
-	Oname      string            `json:"oname"`
-	Level      int               `json:"level"`
-	Interval   int               `json:"interval_s"`
-	KeepDays   int               `json:"keep_days"`
-	Rotation   bool              `json:"rotation"`
-	Tasks      int               `json:"tasks"`
-	Calls      []*c17Call        `json:"calls"`
-	Reads      []*c17Read        `json:"reads"`
-	Steps      []string          `json:"clock_steps"`
-	Reconf     *c17Reconf        `json:"reconfigured,omitempty"`
-	OpenFailed []string          `json:"open_failures,omitempty"`
-	Initial    map[string]string `json:"-"`
-	InitNames  []string          `json:"initial_files"`
-	FinalList  []string          `json:"final_files"`
-	EndMs      int64             `json:"end_ms"`
-	EndNs      int64             `json:"end_ns"`
-	epochMs    int64
-	final      map[string]string
-	removed    map[string]func() []byte
-	gaps       [][2]int64 // jumped-over intervals of the virtual timeline (elapsed ns)
-	jumped     bool
+	LogID       string            `json:"log_id"`
+	Oname       string            `json:"oname"`
+	Level       int               `json:"level"`
+	Interval    int               `json:"interval_s"`
+	KeepDays    int               `json:"keep_days"`
+	Rotation    bool              `json:"rotation"`
+	Tasks       int               `json:"tasks"`
+	Calls       []*c17Call        `json:"calls"`
+	Reads       []*c17Read        `json:"reads"`
+	Steps       []string          `json:"clock_steps"`
+	Reconf      *c17Reconf        `json:"reconfigured,omitempty"`
+	WriteFailed []int64           `json:"write_failures,omitempty"`
+	OpenFailed  []string          `json:"open_failures,omitempty"`
+	Initial     map[string]string `json:"-"`
+	InitNames   []string          `json:"initial_files"`
+	FinalList   []string          `json:"final_files"`
+	EndMs       int64             `json:"end_ms"`
+	EndNs       int64             `json:"end_ns"`
+	epochMs     int64
+	final       map[string]string
+	removed     map[string]func() []byte
+	gaps        [][2]int64 // jumped-over intervals of the virtual timeline (elapsed ns)
+	jumped      bool
 }
 
 // c17Reconf: a configuration reload at runtime (level and interval only).
@@ -248,6 +249,20 @@ func c17Body(rc *RunCtx) {
 			"_log_interval": strconv.Itoa(d.Interval), "log_level": lvName}})
 		if !d.Rotation {
 			simrt.Probe("rotation_disabled")
+		}
+	}
+	if simrt.ChanceF(1, 8) {
+		// fault: a write to a log file fails (disk full for a moment), at most twice per run. The
+		// line being written may be lost; nothing else may be, in particular not the lines after it
+		left := 2
+		disk.FailWrite = func(p string) error {
+			if left == 0 || !strings.HasPrefix(p, c17Home+"/logs/") || !simrt.ChanceF(1, 6) {
+				return nil
+			}
+			left--
+			c17WriteFailed(d, simrt.Stamp())
+			simrt.Fault("log_write_failure")
+			return syscall.ENOSPC
 		}
 	}
 	nTasks := 1 + simrt.Choose(4)
@@ -451,6 +466,9 @@ func c17Body(rc *RunCtx) {
 }
 
 //go:norace
+func c17WriteFailed(d *c17Data, stamp int64) { d.WriteFailed = append(d.WriteFailed, stamp) }
+
+//go:norace
 func c17OpenFailed(d *c17Data, p string) {
 	d.OpenFailed = append(d.OpenFailed, fmt.Sprintf("%s at elapsed %.3fs", filepath.Base(p), float64(simrt.Elapsed())/1e9))
 }
@@ -628,9 +646,20 @@ func c17After(rc *RunCtx, res *simrt.Result) {
 			continue
 		}
 		suppressed := false
+		// hitBy: the injected write error struck while this call was in progress
+		hitBy := func(e *c17Call) bool {
+			for _, st := range d.WriteFailed {
+				if st >= e.Call && (e.Return == 0 || st <= e.Return) {
+					return true
+				}
+			}
+			return false
+		}
 		if iv := maxInterval(c); cached(c.Method) && iv > 0 {
 			for _, e := range d.Calls {
-				if e != c && e.ID == c.ID && cached(e.Method) && len(hits[e.Token]) > 0 && e.Call < c.Return &&
+				// the suppressing line counts as emitted also when the injected error ate it: the
+				// logger had done its part and remembered the id
+				if e != c && e.ID == c.ID && cached(e.Method) && (len(hits[e.Token]) > 0 || hitBy(e)) && e.Call < c.Return &&
 					e.RetMs > c.CallMs-int64(iv)*1000-50 { // its rate-limit stamp lies in [CallMs, RetMs]
 					suppressed = true
 				}
@@ -638,6 +667,10 @@ func c17After(rc *RunCtx, res *simrt.Result) {
 		}
 		if suppressed {
 			rc.Probe("line_suppressed")
+			continue
+		}
+		if hitBy(c) {
+			rc.Probe("line_lost_to_injected_write_error")
 			continue
 		}
 		viol("lost-line", fmt.Sprintf("call #%d (%s id %q %s, at clock %s, task %d) is at/above the level and not rate-limited but appears in no log file", c.N, c.Method, c.ID, c.Token, time.UnixMilli(c.CallMs).UTC().Format("2006-01-02T15:04:05.000"), c.Task))
